@@ -295,12 +295,10 @@ Proof.
   simpl in Hf, Hr. apply andb_true_iff in Hf. apply andb_true_iff in Hr.
   destruct Hf as [Hfa Hfr]. destruct Hr as [Hra Hrr]. apply eqb_prop in Hra.
   simpl. rewrite moe_app, (IH _ Hfr Hrr). f_equal. rewrite Hra.
-  destruct (a_mode a); simpl.
-  - rewrite andb_false_r. apply (ev_expr_occ _ Hfa false).
-  - rewrite andb_true_r. destruct (is_name (a_actual a)) eqn:Nm.
-    + apply (ev_written_occ _ Hfa).
-    + destruct (not_name_written _ Nm) as [E1 E2]. rewrite E2. rewrite E1 in Hfa. apply (ev_expr_occ _ Hfa false).
-  - rewrite andb_false_r. apply (ev_expr_occ _ Hfa false).
+  destruct (a_mode a); simpl; try (rewrite andb_false_r; apply (ev_expr_occ _ Hfa false)).
+  rewrite andb_true_r. destruct (is_name (a_actual a)) eqn:Nm.
+  - apply (ev_written_occ _ Hfa).
+  - destruct (not_name_written _ Nm) as [E1 E2]. rewrite E2. rewrite E1 in Hfa. apply (ev_expr_occ _ Hfa false).
 Qed.
 
 Definition stmt_ok (s : stmt) : Prop :=
@@ -1113,6 +1111,16 @@ Lemma f20_now :
   hyps root6 f20 [sg 2 1] /\ lint_model root6 f20 = Some [] /\
   hyps root6 f20n [sg 2 1] /\ lint_model root6 f20n = Some [DMissing (tk 0) [(3, tk 11)]].
 Proof. split; [exact hyps_f20|]. split; [vm_compute; reflexivity|]. split; [exact hyps_f20n | vm_compute; reflexivity]. Qed.
+
+Lemma hyps_f_outport : hyps root6 f_outport [sg 2 1].
+Proof. unfold hyps. split; [|split; [|split; [|split; [|split]]]]; vm_compute; reflexivity. Qed.
+(* a port of mode out that the process reads is a read signal like any other *)
+Lemma out_port_read :
+  root6 6 = KPort MOut /\ hyps root6 f_outport [sg 2 1] /\
+  lint_model root6 f_outport = Some [DMissing (tk 0) [(6, tk 9)]].
+Proof. split; [vm_compute; reflexivity|]. split; [exact hyps_f_outport | vm_compute; reflexivity]. Qed.
+Lemma port_is_signal : forall root i m, root i = KPort m -> is_signal root i = true.
+Proof. intros root i m H. unfold is_signal. rewrite H. reflexivity. Qed.
 
 Lemma out_actual_old_refuted :
   exists root p names,
